@@ -11,6 +11,7 @@ returned paths back to file ids with a dictionary lookup.  Nothing here judges a
 import datetime
 import hashlib
 import os
+import re
 import shutil
 
 UTC = datetime.timezone.utc
@@ -695,7 +696,7 @@ class TransferWorld:
     def dst(self, d):
         return getattr(self, "dsts", {}).get(d) or os.path.join(self.base, "dst%d" % d)
 
-    def run(self, cmd, o, chs=(), symbolic=False, comma=False, float_time=False, rel_end=False, spelling=0, via_link=False):
+    def run(self, cmd, o, chs=(), symbolic=False, comma=False, float_time=False, rel_end=False, spelling=0, via_link=False, live=False):
         """via_link: the destination is named through a symbolic link to a directory that lives elsewhere (at another
         depth), as with a data disk mounted or linked into a working directory"""
         from digital_rf import drf_command, list_drf
@@ -728,6 +729,30 @@ class TransferWorld:
             eq_raised = True
         raised = False
         exc = None
+        # a recorder that is still running beside `drf mv`: whenever the command creates a destination directory, a new
+        # finalized data file appears in the corresponding source directory (later than everything there).  Whether mv takes
+        # it along or leaves it is its business - it must not vanish.
+        extras = []
+        real_makedirs = os.makedirs
+        dst_real = os.path.realpath(dst)
+        if live and cmd == "mv":
+            def mk(path, *a, **k):
+                r = real_makedirs(path, *a, **k)
+                pr = os.path.realpath(path)
+                if pr.startswith(dst_real + os.sep):
+                    rel = os.path.relpath(pr, dst_real)
+                    sdir = os.path.join(src, rel)
+                    if os.path.isdir(sdir) and not any(e[0] == rel for e in extras):
+                        ms = [re.match(r"^rf@(\d+)\.(\d{3})\.h5$", n) for n in os.listdir(sdir)]
+                        ts = [int(m.group(1)) * 1000 + int(m.group(2)) for m in ms if m]
+                        if ts:
+                            t = max(ts) + 1
+                            name = "rf@%d.%03d.h5" % (t // 1000, t % 1000)
+                            with open(os.path.join(sdir, name), "wb") as fh:
+                                fh.write(b"finalized while mv was running")
+                            extras.append((rel, name))
+                return r
+            os.makedirs = mk
         try:
             drf_command.main(argv)
         except SystemExit as ex:
@@ -736,6 +761,16 @@ class TransferWorld:
         except Exception as ex:
             raised = True
             exc = "%s: %s" % (type(ex).__name__, ex)
+        finally:
+            os.makedirs = real_makedirs
+        live_lost = 0
+        for rel, name in extras:
+            ps, pd = os.path.join(src, rel, name), os.path.join(dst, rel, name)
+            if not os.path.exists(ps) and not os.path.exists(pd):
+                live_lost += 1
+            for p in (ps, pd):
+                if os.path.lexists(p):
+                    os.remove(p)
         s1 = snapshot(src)
         d1 = snapshot(dst)
         new = []
@@ -756,7 +791,7 @@ class TransferWorld:
             src_after=sorted(self.rel2id.get(r, 0) for r in s1),
             src_changed=sorted(self.rel2id.get(r, 0) for r in s1 if r in s0 and s0[r][0] != s1[r][0]),
             eq=sorted(set(eq)), eq_raised=eq_raised,
-            argv=argv[:1] + argv[3:],
+            argv=argv[:1] + argv[3:], live=len(extras), live_lost=live_lost,
         )
         if exc:
             ev["exc"] = exc
